@@ -52,6 +52,8 @@ structure State where
   mem : MemCache.State := {maxSize := 0}
   queue : List DrainItem := []
   now : Nat := 0
+  shards : List String := []      -- first-level shard directories of the cache directory that exist
+  blocked : List String := []     -- shard paths that cannot be created (fault injection: a file sits there)
   deriving Repr, DecidableEq
 
 def init (cfg : Cfg) : State := { cfg := cfg, mem := MemCache.init cfg.maxSize }
@@ -89,6 +91,13 @@ def miOf (crc : Bytes → Nat) (d : Name) (b : Bytes) (pl : Int) : MetaInfo :=
 def pwrite (old : Bytes) (off : Nat) (bytes : Bytes) : Bytes :=
   if bytes.isEmpty then old
   else (old ++ List.replicate (off - old.length) 0).take off ++ bytes ++ old.drop (off + bytes.length)
+
+/-- the first-level shard directory of a cache file (first byte of the name in hex) -/
+def shardOf (n : Name) : String := String.ofList (n.toList.take 2)
+
+/-- can a cache file of this name be created? (no: its shard path is occupied by a plain file, every
+attempt to create or open something below it fails with ENOTDIR) -/
+def usable (s : State) (n : Name) : Bool := !(s.blocked.contains (shardOf n))
 
 section
 variable (H : Bytes → Name) (crc : Bytes → Nat)
@@ -147,8 +156,9 @@ def commitUpload (s : State) (u : String) (name : Name) : State × Res :=
   | some b =>
     let s1 := { s with uploads := KV.del s.uploads u }
     if !verifyOK H s.cfg name b then (s1, .verify)
+    else if !usable s name then (s1, .other)               -- the rename fails (ENOTDIR)
     else if KV.has s.cache name then (s1, .exist)
-    else ({ s1 with cache := KV.put s1.cache name { data := b } }, .ok)
+    else ({ s1 with cache := KV.put s1.cache name { data := b }, shards := shardOf name :: s1.shards }, .ok)
 
 /-- `SetCacheFileMetadata(name, TorrentMeta)` on the disk file -/
 def setTM (s : State) (name : Name) (mi : MetaInfo) : State × Res :=
@@ -167,7 +177,8 @@ def genMetaFromFile (s : State) (name : Name) (pl : Int) : State × Res :=
 /-- the rename into the cache directory: nothing happens when a file of that name exists (`os.ErrExist`,
 swallowed by `writeCacheFile`) -/
 def ensureFile (s : State) (name : Name) (b : Bytes) : State :=
-  if KV.has s.cache name then s else { s with cache := KV.put s.cache name { data := b } }
+  if KV.has s.cache name then s
+  else { s with cache := KV.put s.cache name { data := b }, shards := shardOf name :: s.shards }
 
 /-- `writeCacheFile(name, write, addMetadata, pieceLength)`; the temporary upload file has a fresh
 uuid name and is always removed again, so it is not represented -/
@@ -177,6 +188,7 @@ def writeCacheFile (s : State) (name : Name) (att : Option Attempt) (addMeta : B
   | some a =>
     if a.fail then (s, .write)
     else if !verifyOK H s.cfg name a.data then (s, .verify)
+    else if !usable s name then (s, .other)                 -- the rename into the cache directory fails
     else if addMeta then genMetaFromFile crc (ensureFile s name a.data) name pl
     else (ensureFile s name a.data, .ok)
 
@@ -215,6 +227,38 @@ def writeBlob (s : State) (name : Name) (size : Nat) (atts : List Attempt) (pl :
     | some s2 => (s2, .ok)
     | none => writeDisk H crc (released (reserved s size) size) name size (atts.drop 1).head? pl
   else writeDisk H crc s name size atts.head? pl
+
+/-! ### inside one write-through call: the states a concurrent reader can observe
+
+`WriteBlobToCacheWithMetaInfo` is not atomic for readers (`GetCacheFileReader/Stat/Metadata` take no lock
+shared with it).  The traces below list, in order, the states that exist between its atomic steps — after
+the reservation, after `memCache.Add` (the entry is readable before it is queued for the drain), after the
+release of a failed reservation, after the rename into the cache directory (the blob is readable before its
+metainfo is written), after the metainfo write.  The last state of the trace is the state the call leaves. -/
+
+/-- the disk path: nothing changes unless the stream is complete and verified -/
+def diskTrace (s : State) (name : Name) (size : Nat) (att : Option Attempt) (pl : Int) : List State :=
+  match att with
+  | none => []
+  | some a =>
+    if a.fail then []
+    else if !verifyOK H s.cfg name a.data then []
+    else if !usable s name then []
+    else ensureFile s name a.data ::
+      (if a.data.length = size then [(genMetaFromFile crc (ensureFile s name a.data) name pl).1] else [])
+
+/-- after `memCache.Add`, before the drain item is queued -/
+def published (s : State) (name : Name) (a : Attempt) (pl : Int) : State :=
+  { s with mem := (MemCache.add s.mem name (newEntry crc s name a.data pl)).1 }
+
+def writeBlobTrace (s : State) (name : Name) (size : Nat) (atts : List Attempt) (pl : Int) : List State :=
+  if s.cfg.memEnabled && (MemCache.tryReserve s.mem size).2 then
+    reserved s size ::
+      (match addToMem H crc (reserved s size) name atts.head? size pl, atts.head? with
+       | some s2, some a => [published crc (reserved s size) name a pl, s2]
+       | _, _ => released (reserved s size) size ::
+                  diskTrace H crc (released (reserved s size) size) name size (atts.drop 1).head? pl)
+  else diskTrace H crc s name size atts.head? pl
 
 /-- `CreateCacheFile(name, r)` -/
 def createCache (s : State) (name : Name) (b : Bytes) : State × Res :=
@@ -259,7 +303,16 @@ inductive Op where
   | ttl
   | tick (dt : Nat)
   | delete (name : Name)
+  | block (shard : String)      -- fault injection: put a plain file where a shard directory would go
+  | unblock (shard : String)
   deriving Repr, DecidableEq
+
+/-- a shard path can only be occupied while no directory exists there -/
+def block (s : State) (p : String) : State × Res :=
+  if s.shards.contains p || s.blocked.contains p then (s, .exist) else ({ s with blocked := p :: s.blocked }, .ok)
+
+def unblock (s : State) (p : String) : State × Res :=
+  if s.blocked.contains p then ({ s with blocked := s.blocked.filter (· != p) }, .ok) else (s, .notExist)
 
 def apply (s : State) : Op → State × Res
   | .createUpload u => createUpload s u
@@ -272,6 +325,8 @@ def apply (s : State) : Op → State × Res
   | .ttl => (ttlSweep s, .ok)
   | .tick dt => ({ s with now := s.now + dt }, .ok)
   | .delete n => deleteCache s n
+  | .block p => block s p
+  | .unblock p => unblock s p
 
 def step (s : State) (o : Op) : State := (apply H crc s o).1
 
